@@ -904,7 +904,11 @@ func r4flow(p *Prog, f *ssa.Function, rp ssa.Value, L ssa.Value, depth int) (ret
 		for _, s0 := range states {
 			s := s0.clone()
 			for _, instr := range b.Instrs {
+				before := s.cons
 				r4apply(p, s, instr, rp, L, depth)
+				if r4StepHook != nil && depth == 0 && s.cons != before {
+					r4StepHook(s, instr)
+				}
 			}
 			outs = append(outs, s)
 			r4nStates++
@@ -954,6 +958,10 @@ func fixedSize(t types.Type) int64 {
 	return -1
 }
 
+// r4StepHook, when set, is called after every instruction of the analysed function (not of its helpers) that consumed
+// bytes, with the state reached.
+var r4StepHook func(s *r4state, instr ssa.Instruction)
+
 // r4Hook, when set, is called for every successful return of Read with the abstract states reaching it (used by C06).
 var r4Hook func(ret *ssa.Return, states []*r4state)
 
@@ -965,10 +973,63 @@ func c04R4(r *Report, read *ssa.Function, L ssa.Value) {
 	if why := readerEscapes(rp); why != "" {
 		r.Undecided("R4", "Read/reader-escapes", read.Pos(), "%s", why)
 	}
+	// never beyond the frame, on error paths as well: after every consuming step the bytes taken so far fit in
+	// 4+length for every length the path admits (a field read before the test that the frame is long enough to have it
+	// takes bytes of the next frame, or waits for bytes the peer never sends)
+	type overrun struct {
+		instr ssa.Instruction
+		why   string
+	}
+	var overruns []overrun
+	steps := map[ssa.Instruction]bool{}
+	envL := &IntEnv{}
+	r4StepHook = func(s *r4state, instr ssa.Instruction) {
+		steps[instr] = true
+		if s.dirty != "" || !s.cons.OK {
+			return
+		}
+		c := s.cons
+		if k, has := s.eq[L]; has {
+			if c.A*k+c.B > 4+k {
+				overruns = append(overruns, overrun{instr, fmt.Sprintf("with length == %d it has taken %d bytes of a %d-byte frame", k, c.A*k+c.B, 4+k)})
+			}
+			return
+		}
+		lo := envL.At(L, instr.Block()).Lo
+		if lo < 0 {
+			lo = 0
+		}
+		switch {
+		case c.A == 1 && c.B <= 4, c.A == 0 && c.B <= 4+lo:
+		default:
+			overruns = append(overruns, overrun{instr, fmt.Sprintf("%s bytes have been taken while the frame is only known to have length >= %d", c, lo)})
+		}
+	}
 	rets, ferr := r4flow(p, read, rp, L, 0)
+	r4StepHook = nil
 	if ferr != "" {
 		r.Undecided("R4", "Read/loop-free", read.Pos(), "%s", ferr)
 		return
+	}
+	{
+		seen := map[ssa.Instruction]bool{}
+		for _, o := range overruns {
+			if seen[o.instr] {
+				continue
+			}
+			seen[o.instr] = true
+			r.Fail("R4", fmt.Sprintf("Read/within-frame/%s", exprStr(o.instr.(ssa.Value))), o.instr.Pos(), "this read can go beyond the frame: %s — on a frame that is too short for its type the decoder takes bytes of the next frame (or blocks waiting for them) before it reports the error", o.why)
+		}
+		nOK := 0
+		for in := range steps {
+			if !seen[in] {
+				nOK++
+			}
+		}
+		if len(overruns) == 0 {
+			r.Ok("R4", "Read/within-frame", read.Pos(), "%d consuming steps, none of which can take more than 4+length bytes on any path", nOK)
+		}
+		r.Sentinel("R4.steps", len(steps), 10)
 	}
 	ne := newNilEnv(p)
 	nSuccess := 0
